@@ -59,7 +59,6 @@ type runState struct {
 	calls    map[int]int   // exchange -> number of origin calls so far
 	storeIdx map[string]int
 	pending  int // origin calls entered and not yet returned
-	shutdown chan struct{}
 	dates    map[string]struct{}
 	inner    driver.Conn
 	dir      string
@@ -212,13 +211,17 @@ func (o *origin) RoundTrip(req *http.Request) (*http.Response, error) {
 	}
 	ctx := req.Context()
 	if rp.Hang {
+		// "never answers": until the context is cancelled; the harness itself gives up after 20
+		// virtual minutes (recorded as a leak at quiescence time) so that a history always ends
+		tm := time.NewTimer(20 * time.Minute)
 		select {
 		case <-ctx.Done():
+			tm.Stop()
 			done("cancel")
 			return nil, ctx.Err()
-		case <-rs.shutdown:
+		case <-tm.C:
 			done("leak")
-			return nil, errors.New("verif: harness shutdown")
+			return nil, errors.New("verif: origin never answered")
 		}
 	}
 	if rp.DelayNs > 0 {
@@ -500,7 +503,7 @@ func urlGlue(u *url.URL) string {
 func runHistory(t *testing.T, h *History) (lines []string) {
 	registerDriver()
 	rs := &runState{h: h, bgOf: map[int64]int{}, calls: map[int]int{}, storeIdx: map[string]int{},
-		shutdown: make(chan struct{}), dates: map[string]struct{}{}, curN: -1}
+		dates: map[string]struct{}{}, curN: -1}
 	regMu.Lock()
 	regSeq++
 	id := strconv.Itoa(regSeq)
@@ -531,10 +534,10 @@ func runHistory(t *testing.T, h *History) (lines []string) {
 			rs.emit("I\tREQ\t%d\t%d\t%s\t%s\t%s\t%s\t%s", n, op.AtNs, hx(op.Method), hx(op.URL), glue, encHdrList(op.Hdr), cancel)
 			for k, rp := range op.Replies {
 				kind := "resp"
-				if rp.Err {
-					kind = "err"
-				} else if rp.Hang {
+				if rp.Hang {
 					kind = "hang"
+				} else if rp.Err {
+					kind = "err"
 				}
 				body := ""
 				if hasBody(rp.Status, op.Method) {
@@ -682,13 +685,12 @@ func runHistory(t *testing.T, h *History) (lines []string) {
 			}
 		}
 		// quiescence: let every background task run into its timeout, then look for leftovers
-		<-time.After(30 * time.Minute)
+		<-time.After(10 * time.Minute)
 		synctest.Wait()
 		rs.mu.Lock()
 		leak := rs.pending
 		rs.mu.Unlock()
 		rs.emit("O\tLEAK\t%d", leak)
-		close(rs.shutdown)
 		for _, c := range cancels {
 			c()
 		}
